@@ -37,3 +37,19 @@ for dp, dn, fn in os.walk(root):
         m[q] = sorted(refs)
       calls[mod] = m
 json.dump(calls, open(os.path.join(os.path.dirname(TABLE), 'canon_refs.json'), 'w'), indent=0)
+
+# identifiers the reference tree uses at all (names and attribute names): constructs outside this vocabulary are unfamiliar to the rules
+vocab = set()
+for dp, dn, fn in os.walk(root):
+  for f in sorted(fn):
+    if f.endswith('.py'):
+      tree = ast.parse(open(os.path.join(dp, f)).read())
+      for n in ast.walk(tree):
+        if isinstance(n, ast.Name):
+          vocab.add(n.id)
+        elif isinstance(n, ast.Attribute):
+          vocab.add(n.attr)
+        elif isinstance(n, (ast.FunctionDef, ast.ClassDef)):
+          vocab.add(n.name)
+json.dump(sorted(vocab), open(os.path.join(os.path.dirname(TABLE), 'canon_vocab.json'), 'w'), indent=0)
+print('vocabulary:', len(vocab))
